@@ -695,10 +695,20 @@ func fieldName(t types.Type, idx int) string {
 // its single result. ok is false as soon as anything outside that fragment
 // (a call, a loop, a store, an unknown value) is met.
 func FoldPredicate(fn *ssa.Function, fields map[string]int64) (res int64, ok bool) {
+	return FoldFunc(fn, fields, nil)
+}
+
+// FoldFunc is FoldPredicate with given values for (some) parameters, by position.
+func FoldFunc(fn *ssa.Function, fields map[string]int64, params map[int]int64) (res int64, ok bool) {
 	if fn == nil || len(fn.Blocks) == 0 {
 		return 0, false
 	}
 	val := map[ssa.Value]int64{}
+	for i, pr := range fn.Params {
+		if v, ok := params[i]; ok {
+			val[pr] = v
+		}
+	}
 	var get func(v ssa.Value) (int64, bool)
 	get = func(v ssa.Value) (int64, bool) {
 		if k, ok := ConstInt(v); ok {
@@ -854,4 +864,49 @@ func FoldPredicate(fn *ssa.Function, fields map[string]int64) (res int64, ok boo
 		prev, cur = cur, next
 	}
 	return 0, false
+}
+
+// DependsOnResults is DependsOn (calls opaque) that additionally looks into
+// helpers of the library: a value extracted from the result of a static call
+// of a ch-go function depends on whatever the corresponding returned
+// expressions of that function depend on (two levels).
+func DependsOnResults(v ssa.Value, target func(ssa.Value) bool) bool {
+	return dependsOnResults(v, target, 0)
+}
+
+func dependsOnResults(v ssa.Value, target func(ssa.Value) bool, depth int) bool {
+	return DependsOn(v, func(x ssa.Value) bool {
+		if target(x) {
+			return true
+		}
+		if depth >= 2 {
+			return false
+		}
+		var call *ssa.Call
+		idx := 0
+		switch y := x.(type) {
+		case *ssa.Extract:
+			call, _ = y.Tuple.(*ssa.Call)
+			idx = y.Index
+		case *ssa.Call:
+			call = y
+		}
+		if call == nil {
+			return false
+		}
+		g := StaticFn(call)
+		if g == nil || g.Blocks == nil || g.Pkg == nil || !strings.HasPrefix(g.Pkg.Pkg.Path(), PkgCh) {
+			return false
+		}
+		for _, b := range g.Blocks {
+			ret, ok := b.Instrs[len(b.Instrs)-1].(*ssa.Return)
+			if !ok || idx >= len(ret.Results) {
+				continue
+			}
+			if dependsOnResults(ResolveCellLoad(ret.Results[idx], ret), target, depth+1) {
+				return true
+			}
+		}
+		return false
+	}, false)
 }
